@@ -187,3 +187,78 @@ func TestGovcReplayBeginInterBitXHub(t *testing.T) {
 	}
 	fmt.Println("REPLAY-NOT-CONFIRMED clause", in.Clause, "holds on every candidate input tried")
 }
+
+// TestGovcReplayGroup: fixed call sequences for the one-to-many group logic (C05), run on the real transaction manager
+// over the map-backed stub. The clause that failed selects what is looked at.
+func TestGovcReplayGroup(t *testing.T) {
+	in := govcReadInput(t)
+	stub := newGovcFakeStub()
+	stub.currentCaller = constant.InterchainContractAddr.Address().String()
+	tm := &TransactionManager{Stub: stub}
+	group := func() (TransactionInfo, bool) {
+		var g TransactionInfo
+		ok := stub.GetObject(GlobalTxInfoKey("g1"), &g)
+		return g, ok
+	}
+	switch in.Values["scenario"] {
+	case "partial-success-then-failure":
+		// two declared children begin; the first reports SUCCESS: the group stays open and stays on the timeout list;
+		// the second reports FAILURE: the group and every child fail
+		tm.BeginMultiTXs("g1", "a", 10, false, 2)
+		tm.BeginMultiTXs("g1", "b", 10, false, 2)
+		_, listBefore := stub.Get(TimeoutKey(20))
+		r1 := tm.Report("a", int32(pb.IBTP_RECEIPT_SUCCESS))
+		g, _ := group()
+		_, listAfter := stub.Get(TimeoutKey(20))
+		fmt.Printf("replay: after the first SUCCESS receipt ok=%v group=%v children=%v timeout list %q -> %q\n", r1.Ok, g.GlobalState, g.ChildTxInfo, listBefore, listAfter)
+		if g.GlobalState == pb.TransactionStatus_SUCCESS {
+			fmt.Println("REPLAY-CONFIRMED the group is SUCCESS before every declared child succeeded")
+			return
+		}
+		if g.GlobalState == pb.TransactionStatus_BEGIN && string(listAfter) != string(listBefore) {
+			fmt.Println("REPLAY-CONFIRMED the group's timeout was unscheduled while the group is still open")
+			return
+		}
+		r2 := tm.Report("b", int32(pb.IBTP_RECEIPT_FAILURE))
+		g, _ = group()
+		fmt.Printf("replay: after the FAILURE receipt ok=%v group=%v children=%v\n", r2.Ok, g.GlobalState, g.ChildTxInfo)
+		if !r2.Ok || g.GlobalState != pb.TransactionStatus_BEGIN_FAILURE || g.ChildTxInfo["a"] != pb.TransactionStatus_BEGIN_FAILURE || g.ChildTxInfo["b"] != pb.TransactionStatus_FAILURE {
+			fmt.Println("REPLAY-CONFIRMED a failed child does not fail the whole stored group")
+			return
+		}
+		r3 := tm.Report("a", int32(pb.IBTP_RECEIPT_SUCCESS))
+		g, _ = group()
+		if g.GlobalState == pb.TransactionStatus_SUCCESS {
+			fmt.Println("REPLAY-CONFIRMED a failed group became SUCCESS", r3.Ok)
+			return
+		}
+	case "begin-failure-after-a-success":
+		// child a begins and succeeds (count 3), child b begins, child c fails at begin: everything fails; a late child d joins failed
+		tm.BeginMultiTXs("g1", "a", 10, false, 3)
+		tm.BeginMultiTXs("g1", "b", 10, false, 3)
+		tm.Report("a", int32(pb.IBTP_RECEIPT_SUCCESS))
+		r := tm.BeginMultiTXs("g1", "c", 10, true, 3)
+		g, _ := group()
+		fmt.Printf("replay: after a child failed at begin ok=%v group=%v children=%v\n", r.Ok, g.GlobalState, g.ChildTxInfo)
+		if !r.Ok || g.GlobalState != pb.TransactionStatus_BEGIN_FAILURE {
+			fmt.Println("REPLAY-CONFIRMED a child failing at begin does not fail the stored group")
+			return
+		}
+		for id, s := range g.ChildTxInfo {
+			if s != pb.TransactionStatus_BEGIN_FAILURE {
+				fmt.Println("REPLAY-CONFIRMED child", id, "keeps status", s, "after a sibling failed at begin")
+				return
+			}
+		}
+		r = tm.BeginMultiTXs("g1", "d", 10, false, 3)
+		g, _ = group()
+		if r.Ok && g.ChildTxInfo["d"] != pb.TransactionStatus_BEGIN_FAILURE {
+			fmt.Println("REPLAY-CONFIRMED a child joining a failed group starts as", g.ChildTxInfo["d"])
+			return
+		}
+	default:
+		fmt.Println("REPLAY-NOT-CONFIRMED unknown scenario", in.Values["scenario"])
+		return
+	}
+	fmt.Println("REPLAY-NOT-CONFIRMED the scenario behaves as specified")
+}
